@@ -71,3 +71,14 @@ claim('C17',
       '(annulus order on assignment, text parameter deletable), three defects repaired by fix: commits.',
       'symbolic execution of the real validators + SMT (z3), plus exhaustive execution of the discrete invalid-value catalogue',
       'DESIGN.md section 5 C17')
+claim('C13',
+      'Frame condition: every public read-only / constructive operation leaves its inputs (parameters bit-for-bit, meta, '
+      'visual, container identities), the image/coordinate arguments and the module-level parser tables unchanged, and a '
+      'second call returns an equal result.  Decided symbolically (for all parameter values at once) for contains / area / '
+      'bounding_box / rotate / copy / & ^ / DS9+CRTF serialisation of 8 pixel classes; executed on a 22-region pool for 35 '
+      'operations incl. sky conversion, masks, artists, three formats; order independence of parse/serialise calls by '
+      'running every ordered pair in a fresh forked interpreter.  Histories of any length follow from the invariant.',
+      'The executed part is enumeration (supplementary), the solver decides the symbolic frame conditions; fingerprint '
+      'defined in the evidence; state outside it (astropy caches) is outside the claim.',
+      'symbolic frame-condition checking (z3 term identity per path) + executed frame conditions and pairwise order differential',
+      'DESIGN.md section 5 C13')
